@@ -198,10 +198,17 @@ def run(ck):
         prop = PopulationPropagator(ta, K.copy())
         inp = {"K": K.tolist(), "axis": [0.0, 200, dt], "sub": [start, ln, step]}
         try:
-            U = prop.get_PropagationMatrix(ts)
+            # the perturbative corrections are an optional extra: the propagation matrix handed out with them is the same one
+            corr = (-1, 0, 1, 2)[h % 4]
+            inp["corrections"] = corr
+            if corr < 0:
+                U = prop.get_PropagationMatrix(ts)
+            else:
+                U = prop.get_PropagationMatrix(ts, corrections=corr, exact=(h % 8 >= 4))[0]
             refused = False
         except Exception as e:
             refused = True
+            inp["raised"] = repr(e)[:200]
         subset = ts.is_subset_of(ta)
         ck.case(("pm", K.tobytes(), start, ln, step), nontrivial=(start != 0.0 and not refused), kind="propmatrix:" + kind,
                 sample=inp if h < 1 else None)
@@ -244,6 +251,12 @@ def run(ck):
             Know = numpy.array(rm.data, dtype=float)
             inp = {"K": Know.tolist(), "phase": phase, "history": "get_PropagationMatrix / propagate, set_rate, again on the same propagator"}
             try:
+                # a request with the optional perturbative corrections in between (same objects)
+                prop.get_PropagationMatrix(ts2, corrections=phase, exact=(h % 2 == 0))
+                cs_ = float(numpy.abs(numpy.array(rm.data, dtype=float).sum(axis=0)).max())
+                if cs_ > 1e-12:
+                    ck.fail("set_rate:colsum:after-corrections", "column sums of the rate matrix are not zero after get_PropagationMatrix(corrections=%d)" % phase,
+                            inp, cs_)
                 U = prop.get_PropagationMatrix(ts2)
                 pt = numpy.array(prop.propagate(p0.copy()))
             except Exception as e:
